@@ -582,6 +582,30 @@ func doMain(spec *Spec, tier string, seed uint64, nruns int) int {
 	// classify violations
 	kf := LoadFindings()
 	sort.SliceStable(total.Violations, func(i, j int) bool { return total.Violations[i].Run < total.Violations[j].Run })
+	// pinned examples of the listed known findings: replayed on every run
+	var pinned []Violation
+	for _, e := range kf.Entries {
+		if e.Status != "known" || e.Property != spec.Property || len(e.Example) == 0 || spec.Replay == nil {
+			continue
+		}
+		st := newStats()
+		c := &Ctx{Property: spec.Property, Tier: tier, Seed: seed, Run: 0, RNG: NewRNG(seed, HashString(spec.Property), 0), st: st, Replay: true}
+		ex := e.Example
+		runGuarded(spec, c, func() { spec.Replay(c, ex) })
+		found := false
+		for _, v := range st.Violations {
+			if v.Key == e.Key {
+				v.Run = -1
+				pinned = append(pinned, v)
+				found = true
+				break
+			}
+		}
+		if !found {
+			fmt.Printf("note: the pinned example of the listed finding %s %s does not fail on this tree\n", e.Property, e.Key)
+		}
+	}
+	total.Violations = append(pinned, total.Violations...)
 	seenKnown := map[string]bool{}
 	seenKey := map[string]bool{}
 	var knownLines []string
